@@ -124,7 +124,8 @@ JOINS = ['JOIN', 'INNER JOIN', 'LEFT JOIN', 'LEFT OUTER JOIN', 'RIGHT JOIN', 'RI
 CONTEXTS = ['select_sole', 'select_first', 'select_middle', 'select_last', 'from_sole', 'from_first', 'from_middle',
             'from_last', 'update_target', 'insert_target_values', 'insert_target_cols', 'insert_target_select',
             'delete_target', 'subquery_from', 'subquery_where', 'where_operand', 'on_operand', 'order_by_item',
-            'group_by_item', 'call_argument'] + ['join:' + j for j in JOINS] + \
+            'group_by_item', 'call_argument', 'subquery_from_as', 'subquery_from_as_item', 'subquery_select_as', 'cte_body',
+            'cte_body_item', 'nested_subquery_as'] + ['join:' + j for j in JOINS] + \
            ['join_noon:' + j for j in JOINS]
 
 
@@ -209,6 +210,18 @@ def c12_text(inst):
         return f"{k('delete from')} {ref} {k('where')} p1 = 1"
     if c == 'subquery_from':
         return f"{k('select')} 1 {k('from')} ({k('select')} p1 {k('from')} {ref}) s9"
+    if c == 'subquery_from_as':
+        return f"{k('select')} 1 {k('from')} ({k('select')} p1 {k('from')} {ref}) {k('as')} s9"
+    if c == 'subquery_from_as_item':
+        return f"{k('select')} 1 {k('from')} ({k('select')} {ref}, p2 {k('from')} t0) {k('as')} s9"
+    if c == 'subquery_select_as':
+        return f"{k('select')} ({k('select')} p1 {k('from')} {ref}) {k('as')} s9 {k('from')} t0"
+    if c == 'cte_body':
+        return f"{k('with')} c9 {k('as')} ({k('select')} p1 {k('from')} {ref}) {k('select')} 1 {k('from')} c9"
+    if c == 'cte_body_item':
+        return f"{k('with')} c9 {k('as')} ({k('select')} {ref} {k('from')} t0) {k('select')} 1 {k('from')} c9"
+    if c == 'nested_subquery_as':
+        return f"{k('select')} 1 {k('from')} ({k('select')} 1 {k('from')} ({k('select')} p1 {k('from')} {ref}) {k('as')} s8) {k('as')} s9"
     if c == 'subquery_where':
         return f"{k('select')} 1 {k('from')} t0 {k('where')} p1 {k('in')} ({k('select')} p2 {k('from')} {ref})"
     if c == 'where_operand':
